@@ -452,6 +452,7 @@ type Arg struct{ Name, Type string }
 type Interface struct {
 	Name      string
 	Marked    bool // carries a :convergen line
+	Bare      bool // no comment of any kind above the declaration
 	Notations []string
 	DocLines  []string
 	Methods   []Method
@@ -1300,6 +1301,24 @@ func Generate(seed int64, index int, opt Options) *Case {
 		}
 		c.Interfaces = append(c.Interfaces, it)
 	}
+	// drawn from a generator of its own, so that the rest of the stream stays as it is
+	rngX := rand.New(rand.NewSource(seed*7919 + int64(index)*31 + 17))
+	if len(c.Interfaces) >= 2 && rngX.Intn(4) == 0 {
+		// a converter interface named Convergen with no comment at all (not even a go:generate line) next to
+		// interfaces that carry interface-level notations: it must get the defaults, not its neighbours' settings
+		configured := false
+		for ii := range c.Interfaces {
+			if c.Interfaces[ii].Name != "Convergen" && len(c.Interfaces[ii].Notations) > 0 {
+				configured = true
+			}
+		}
+		for ii := range c.Interfaces {
+			if it := &c.Interfaces[ii]; configured && it.Name == "Convergen" && !it.Marked {
+				it.Notations, it.DocLines, it.NoDoc, it.Bare = nil, nil, true, true
+				g.feat("bare-Convergen-next-to-configured-interfaces")
+			}
+		}
+	}
 	var all []*Method
 	for ii := range c.Interfaces {
 		for mi := range c.Interfaces[ii].Methods {
@@ -1465,7 +1484,7 @@ func renderSetup(rng *rand.Rand, c *Case, opt Options) string {
 				sb.WriteString("// " + l + "\n")
 			}
 		}
-		if oi == 0 && rng.Intn(3) == 0 {
+		if gg := oi == 0 && rng.Intn(3) == 0; gg && !it.Bare {
 			sb.WriteString("//go:generate go run github.com/reedom/convergen@v0.7.0\n")
 			c.Features["go-generate"]++
 		}
